@@ -4,12 +4,13 @@ from vlib.pipeline import Group
 LEVEL = "proof"
 MANIFEST = dict(
     category="proof",
-    text="Function contracts on the real wopn_file.c (verified in place, no extraction): byte-precise postconditions and frames for the 16-bit codecs, WOPN_parseInstrument/WOPN_writeInstrument, the OPNI save/load/size functions, discharged by CBMC for all inputs; round-trip and load-save-load identities are lemmas over those contracts. Bank-file functions: see level_note.",
+    text="Function contracts on the real wopn_file.c (verified in place, no extraction): byte-precise postconditions and frames for the 16-bit codecs, WOPN_parseInstrument/WOPN_writeInstrument, the OPNI save/load/size functions, discharged by CBMC for all inputs; round-trip and load-save-load identities are lemmas over those contracts. Bank-file functions WOPN_LoadBankFromMem/WOPN_SaveBankToMem: proved by loop-head cut points on the real text (base, step and exit case of every loop as a separate loop-free segment) plus pure arithmetic lemmas for the layout invariants: header fields, exact cursor/length bookkeeping, record (i,j,k) at offset header+names+size*(128*banks_before+k), success iff the block holds the whole layout, no access outside the block.",
     design_ref="DESIGN.md C15",
-    level_note="Trusted: CBMC's models of strncpy/memcpy/memcmp/malloc; spec functions in contracts/wopn_contracts.h; allocation succeeds; the four mutable magic-string pointers keep their initial value (stated precondition, invariant because no enforced frame contains them).",
+    level_note="Bank-file segments: unbounded in bank counts, block length and iterations, except the four data-moving segment families (bank-name body, record body of load and save) where the bank index is < 64 (the property's own domain); the whole-file round trip Load(Save(f)) == f is the composition of the per-record layout agreement, the record lemmas and the frames - that last composition step is by hand. WOPN_Init's contract is assumed. Trusted: CBMC's models of strncpy/memcpy/memcmp/malloc; spec functions in contracts/wopn_contracts.h; allocation succeeds; the four mutable magic-string pointers keep their initial value (stated precondition, invariant because no enforced frame contains them).",
     technique="CBMC code contracts (DFCC enforce/replace) on the in-place C source; lemmas over contracts")
 SRC = "harness/wopn_h.c"
-TRUSTED = ["CBMC built-in models of strncpy, memcpy, memcmp, malloc, calloc, free",
+TRUSTED = ["assumed contract: WOPN_Init (fresh file with max(1,count) banks per slot, header fields zero) - its enforcement ran out of memory (calloc of symbolic count x 9 KB elements); stated in contracts/wopn_contracts.h",
+           "assumed contract: WOPN_Free (frame only)", "byte-wise memcpy model in harness/wopn_seg_h.c (segment groups)", "CBMC built-in models of strncpy, memcpy, memcmp, malloc, calloc, free",
            "spec functions in contracts/wopn_contracts.h (written from the property statement and docs/wopn specification.txt)"]
 ASSUMPTIONS = []
 U = "strncpy.0:33,memcmp.0:12,memcpy.0:70,spec_name32_copied.0:33,spec_name32_parsed.0:32,spec_magic_is.0:12,ins_equal.0:33,ins_equal.1:5,name_repr.0:33"
@@ -45,7 +46,7 @@ def opni_groups():
     return [
         _g("opni_calc_size", "h_CalculateInstFileSize", enforce="WOPN_CalculateInstFileSize", required=[r"postcondition"]),
         _g("opni_save_contract", "h_SaveInstToMem", enforce="WOPN_SaveInstToMem", replace=["WOPN_writeInstrument"],
-           required=[r"postcondition", r"assigns"]),
+           required=[r"postcondition", r"assigns"], mem_gb=20, timeout=1200),
         _g("opni_save_degenerate", "h_SaveInst_degenerate", required=[r"DEGENERATE"], funcs=["WOPN_SaveInstToMem"], unwind=80),
         _g("opni_load_contract", "h_LoadInstFromMem", enforce="WOPN_LoadInstFromMem", replace=["WOPN_parseInstrument"],
            required=[r"postcondition", r"assigns"]),
@@ -57,5 +58,49 @@ def opni_groups():
     ]
 
 
+SEG = "harness/wopn_seg_h.c"
+SEG_CHECKS = ["--bounds-check", "--pointer-check", "--div-by-zero-check", "--signed-overflow-check", "--undefined-shift-check", "--no-malloc-may-fail"]
+SEG_NOTE = "loop-head cut point segment of the real function text (VERIF_LOOP/VERIF_ENTRY markers); pointer-arithmetic range check off because the current bank/record is a one-element window (base = window - j)"
+LOAD_LOOPS = {1: "names outer", 2: "names inner", 3: "instruments outer", 4: "instruments bank", 5: "instruments record"}
+
+
+def bank_groups():
+    U2 = "strncpy.0:33,memcmp.0:80,memcpy.0:40,spec_magic_is.0:12,spec_name32_copied.0:33,WOPN_parseInstrument.0:5,WOPN_writeInstrument.0:5"
+    gs = [
+    ] + [
+        _g("bank_calc_size_contract_v%d" % v, "h_CalcBankSize", enforce="WOPN_CalculateBankFileSize", required=[r"postcondition"], defines=["CALC_V=%d" % v]) for v in (0, 1, 2)
+    ] + [
+        _g("ins_parse_frame_contract", "h_parseInstrument", enforce="WOPN_parseInstrument/contract_parse_frame", required=[r"assigns"]),
+        _g("ins_write_frame_contract", "h_writeInstrument", enforce="WOPN_writeInstrument/contract_write_frame", required=[r"assigns"]),
+    ]
+    gs.append(Group("bank_load_seg_entry", SEG, "h_seg_load", replace=["WOPN_Init", "WOPN_Free"], defines=["SEG_START=0"], unwind=80,
+                    checks=SEG_CHECKS, object_bits=9, required=[r"SEG-LOAD"], funcs=["WOPN_LoadBankFromMem"], timeout=600,
+                    note="entry -> first loop head or error return, every byte string; WOPN_Init by its contract. " + SEG_NOTE))
+    gs.append(Group("bank_save_seg_entry", SEG, "h_seg_save", defines=["SEG_START=10"], unwind=80, checks=SEG_CHECKS, object_bits=9,
+                    required=[r"SEG-SAVE"], funcs=["WOPN_SaveBankToMem"], timeout=600, note="entry -> first loop head or error return. " + SEG_NOTE))
+    for loop, what in LOAD_LOOPS.items():
+        for slot in (0, 1):
+            gs.append(Group("bank_load_seg_%d_slot%d" % (loop, slot), SEG, "h_seg_load",
+                            replace=["WOPN_Free"],
+                            defines=["SEG_START=%d" % loop, "SEG_I=%d" % slot], unwind=80, checks=SEG_CHECKS, object_bits=9, required=[r"SEG"], bounded=("bank index < 64 in this data-moving segment (domain of the property)" if loop in (2, 5) else None),
+                            funcs=["WOPN_LoadBankFromMem"], timeout=600, note="from the head of the %s loop (slot %d) to the next cut point or return. %s" % (what, slot, SEG_NOTE)))
+            gs.append(Group("bank_save_seg_%d_slot%d" % (loop, slot), SEG, "h_seg_save",
+                            replace=[],
+                            defines=["SEG_START=%d" % (10 + loop), "SEG_I=%d" % slot], unwind=80, checks=SEG_CHECKS, object_bits=9, required=[r"SEG"], bounded=("bank index < 64 in this data-moving segment (domain of the property)" if loop in (2, 5) else None),
+                            funcs=["WOPN_SaveBankToMem"], timeout=600, note="from the head of the %s loop (slot %d) to the next cut point or return. %s" % (what, slot, SEG_NOTE)))
+    # pure arithmetic lemma instances: (from, to) pairs of the loop-head transition system; 6 = success return, 7 = short return
+    PAIRS = {1: [2, 1, 3], 2: [2, 1, 3, 7], 3: [4, 3, 6, 7], 4: [5], 5: [5, 4, 3, 6]}
+    for frm, tos in PAIRS.items():
+        for to in tos:
+            for v in (1, 2):
+                if v == 1 and frm in (1, 2):
+                    continue   # the bank-name loops exist for version >= 2 only
+                gs.append(Group("bank_layout_lemma_%d_to_%d_v%d" % (frm, to, v), SEG, "h_lemma",
+                                defines=["LEMMA_FROM=%d" % frm, "LEMMA_TO=%d" % to, "LEMMA_V=%d" % v], checks=SEG_CHECKS, object_bits=9,
+                                required=[r"LEMMA"], timeout=900,
+                                note="pure arithmetic, all integers: Inv(from) && transition ==> Inv(to); return cases: consumed == layout size / block < layout size"))
+    return gs
+
+
 def groups(tier):
-    return leaf_groups() + ins_groups() + opni_groups()
+    return leaf_groups() + ins_groups() + opni_groups() + bank_groups()
